@@ -67,6 +67,27 @@ theorem governance_params_valid {s s' : State} {op : Op} (h : exec s op = .ok s'
   · obtain ⟨rfl, _, hv⟩ := migrateChainIds_ok h; exact hv
   · obtain ⟨ca, rfl, hv⟩ := updateAliases_ok h; exact hv
 
+/-- valid chains params list no alias under two chain-ids: the assumption `ParamsWF` of
+    `resolve_agree_partial` is what `validateAliasesOfChainIds` enforces, and therefore holds after
+    every accepted chain-id migration and alias update (`governance_params_valid`) -/
+theorem paramsWF_of_caValid {p : Params} (h : caValid p.chainAliases = true) : ParamsWF p := by
+  unfold caValid at h
+  simp only [Bool.and_eq_true, decide_eq_true_eq] at h
+  obtain ⟨_, hn⟩ := h
+  unfold ParamsWF
+  generalize p.chainAliases = ca at hn
+  induction ca with
+  | nil => intro r hr; cases hr
+  | cons x xs ih =>
+    simp only [List.flatMap_cons, List.nodup_append] at hn
+    obtain ⟨hx, hxs, hdis⟩ := hn
+    intro r hr r' hr' l hl hl'
+    rcases List.mem_cons.mp hr with e1 | h1 <;> rcases List.mem_cons.mp hr' with e2 | h2
+    · rw [e1, e2]
+    · subst e1; exact absurd rfl (hdis l hl l (List.mem_flatMap.mpr ⟨r', h2, hl'⟩))
+    · subst e2; exact absurd rfl (hdis l hl' l (List.mem_flatMap.mpr ⟨r, h1, hl⟩))
+    · exact ih hxs r h1 r' h2 l hl hl'
+
 /-- **no host-literal records without a migration onto the host chain-id**: in every history none of
     whose operations is a chain-id migration with the host chain-id as a target (nor carries the
     text-less id `hostLit` as an argument), no address record is stored under the literal host
